@@ -508,8 +508,15 @@ pub fn execute(sc: &TScenario, sh: &Shared) -> Value {
                     let mut admitted = 0u32;
                     let mut rejected = 0u32;
                     let res = catch_unwind(AssertUnwindSafe(|| {
+                        // the expression is evaluated either before the injector exists (while
+                        // another thread may be in the middle of its own lifetime) or after
+                        let early = (ti + ri) % 2 == 0;
+                        let mut pre = if early { Some(counted_site()) } else { None };
                         let mut inj = InjectorPP::new();
-                        let pair = counted_site();
+                        let pair = match pre.take() {
+                            Some(p) => p,
+                            None => counted_site(),
+                        };
                         if zero {
                             if let CallCountVerifier::WithCount { counter, .. } = &pair.1 {
                                 counter.store(0, Ordering::SeqCst);
